@@ -270,9 +270,11 @@ func (p *Parser) ParseIntegerLiteral() ast.Expression {
 
 func (p *Parser) ParseFloatLiteral() ast.Expression {
 	lit := &ast.FloatLiteral{Token: p.CurrentToken}
-	_, err := strconv.ParseFloat(p.CurrentToken.Literal, 64)
-	if err != nil {
-		p.AddError(fmt.Sprintf("could not parse %q as float", p.CurrentToken.Literal))
+	text := p.CurrentToken.Literal
+	_, err := strconv.ParseFloat(text, 64)
+	// strconv accepts a leading zero before further digits (01e2, 03.0); JavaScript does not
+	if err != nil || (len(text) > 1 && text[0] == '0' && text[1] >= '0' && text[1] <= '9') {
+		p.AddError(fmt.Sprintf("could not parse %q as float", text))
 		return nil
 	}
 	return lit
